@@ -30,7 +30,7 @@ struct HRec {
 	size_t want = 0; std::string data;
 };
 struct World {
-	std::vector<HRec> h; int live_functors = 0; int loop_thread = -1; bool stop_called = false; bool pair_starved = false; int pair_waits = 0;
+	std::vector<HRec> h; int live_functors = 0; int loop_thread = -1; bool stop_called = false; bool pair_starved = false; int pair_waits = 0; int loop_restarts = 0;
 	std::map<std::pair<int,int>,bool> armed; std::set<int> xcancelled_fds; std::vector<std::pair<int,uint64_t>> xcancels; uint64_t evseq = 0;
 	int add(const std::string &k){ simk::TsanIgnore ign; h.emplace_back(); h.back().kind = k; return (int)h.size()-1; }
 };
@@ -53,6 +53,10 @@ struct Fn {
 	}
 	void operator()(booster::system::error_code const &e,size_t n) const { note(e.value(),e ? e.category().name() : "",n); }
 };
+
+// a posted handler that throws: the exception leaves run(); the documentation allows calling run() again, and the handler has run (once)
+struct LoopThrow {};
+struct ThrowingFn { Fn f; explicit ThrowingFn(int i) : f(i) {} void operator()() const { f(); throw LoopThrow(); } };
 
 struct E6 : Engine {
 	J generate(uint64_t seed,const std::string &prop,bool thorough) override {
@@ -82,11 +86,12 @@ struct E6 : Engine {
 		int npairs = r.below(5); p["pairs"] = npairs;
 		int nprod = 1 + r.below(4); J th = J::arr();
 		bool xthread = r.below(8) == 0;   // one run in eight cancels descriptor waits directly from a foreign thread
+		bool throwing = r.below(5) == 0;  // one run in five has posted handlers that throw out of run(); the loop thread calls run() again
 		// operations issued before run() is called for the first time: everything is deferred to the queue, in order; a wait armed and cancelled there must be completed (canceled) as soon as the loop runs
 		if(npairs && r.below(4) == 0){ J pre = J::arr(); int n = 1 + r.below(5); for(int i=0;i<n;i++){ J o = J::obj(); unsigned x = r.below(10); if(x < 4){ o["op"] = "io"; o["p"] = (int)r.below(npairs); o["dir"] = r.below(4) == 0 ? 1 : 0; } else if(x < 8){ o["op"] = "cancel_io"; o["p"] = (int)r.below(npairs); } else { o["op"] = "post"; } pre.push(o); } p["pre"] = pre; }
 		for(int t=0;t<nprod;t++){ J ops = J::arr(); int n = 1 + r.below(thorough ? 16 : 9);
 			for(int i=0;i<n;i++){ J o = J::obj(); unsigned x = r.below(100);
-				if(x < 25){ o["op"] = "post"; }
+				if(x < 25){ o["op"] = "post"; if(throwing && r.below(4) == 0) o["throws"] = 1; }
 				else if(x < 45){ o["op"] = "timer"; unsigned y = r.below(10); o["ms"] = y < 3 ? 0 : y < 5 ? -5 : y < 8 ? (int)r.below(20) : (int)(10 * (1 + r.below(3))); }
 				else if(x < 57){ o["op"] = "cancel_timer"; o["i"] = (int)r.below(6); }
 				else if(x < 70 && npairs){ o["op"] = "io"; o["p"] = (int)r.below(npairs); o["dir"] = r.below(4) == 0 ? 1 : 0; }
@@ -174,7 +179,7 @@ struct E6 : Engine {
 				if(op == "post"){ int h = w.add("post"); srv.post(Fn(h)); }
 				else if(op == "io"){ int dir = o.geti("dir") ? aio::io_events::out : aio::io_events::in; if(!w.armed[{fd,dir}]){ w.armed[{fd,dir}] = true; int h = w.add(dir == aio::io_events::in ? "io_in" : "io_out"); w.h[h].fd = fd; w.h[h].dir = dir; srv.set_io_event(fd,dir,Fn(h)); w.h[h].armed_seq = ++w.evseq; } }
 				else if(op == "cancel_io"){ for(size_t k=0;k<w.h.size();k++) if(w.h[k].fd == fd && w.h[k].count == 0 && std::find(pre_cancelled.begin(),pre_cancelled.end(),(int)k) == pre_cancelled.end()) pre_cancelled.push_back((int)k); srv.cancel_io_events(fd); } } }
-			std::thread loop([&]{ w.loop_thread = simk::self_id(); srv.run(); });
+			std::thread loop([&]{ w.loop_thread = simk::self_id(); for(;;){ try { srv.run(); break; } catch(LoopThrow const &){ simk::TsanIgnore ign; w.loop_restarts++; } } });
 			if(!pre_cancelled.empty() && !stop_race){
 				for(int k=0;k<2;k++){ int sn = w.add("post"); srv.post(Fn(sn)); simk::block([&w,sn]{ return w.h[sn].count > 0; },simk::now_us()+3600LL*1000000,"pre-sentinel"); }   // the canceler queues the completion behind the first sentinel
 				for(int h:pre_cancelled) if(w.h[h].count == 0){ res.fail("io-cancel-before-run-lost",w.h[h].kind + "#" + std::to_string(h) + ": set_io_event() and then cancel_io_events() were called before run(); the loop has since run two posted handlers but the cancelled wait was not completed"); break; }
@@ -213,7 +218,7 @@ struct E6 : Engine {
 			for(size_t t=0;t<nt;t++) thr.emplace_back([&,t]{
 				const J &ops = th.a[t]; std::vector<int> tids,thids;
 				for(size_t i=0;i<ops.size() && i<40;i++){ const J &o = ops.a[i]; std::string op = o.gets("op"); int p = npairs ? (int)(((o.geti("p") % npairs) + npairs) % npairs) : 0;
-					if(op == "post"){ int h = w.add("post"); w.h[h].posted_after_stop = w.stop_called; srv.post(Fn(h)); }
+					if(op == "post"){ int h = w.add("post"); w.h[h].posted_after_stop = w.stop_called; if(o.geti("throws")) srv.post(ThrowingFn(h)); else srv.post(Fn(h)); }
 					else if(op == "timer"){ int h = w.add("timer"); int64_t ms = std::max<int64_t>(-1000,std::min<int64_t>(o.geti("ms"),100000)); w.h[h].posted_after_stop = w.stop_called; w.h[h].deadline_us = simk::now_us() + ms*1000;
 						ptime at = ptime(w.h[h].deadline_us/1000000,(int)((w.h[h].deadline_us%1000000)*1000)); int id = srv.set_timer_event(at,Fn(h)); tids.push_back(id); thids.push_back(h); }
 					else if(op == "cancel_timer"){
@@ -256,6 +261,7 @@ struct E6 : Engine {
 			for(auto &ch:chains){ ch->timer.reset(); ch->canceler.reset(); if(ch->sock){ booster::system::error_code e; ch->sock->close(e); } if(ch->peer >= 0 && !ch->peer_closed) ::close(ch->peer); }
 			for(auto &pr:pairs){ ::close(pr.first); ::close(pr.second); }
 		}
+		res.counters["run_restarted_after_handler_exception"] = w.loop_restarts;
 		int n_ok = 0, n_cancel = 0;
 		for(size_t i=0;i<w.h.size();i++){ HRec &r = w.h[i]; std::string nm = r.kind + "#" + std::to_string(i);
 			if(r.count > 1){ res.fail("handler-ran-twice",nm + " was invoked " + std::to_string(r.count) + " times"); continue; }
